@@ -349,9 +349,9 @@ def showOptQ (m : Except PanicKind (Option Q)) (specOk : Q → Bool) : String :=
     attribute disagreements: the model result printed first is always the required one).
     Maintenance: when a proposed fix is applied to /repo, set its switch to `false` here —
     `uniformUlp`, `oddIncl`, `panicUnlimited` ← proposed_fixes/fbig-error-bounds.diff;
-    `zeroEndpoint` ← simplest-in-zero-endpoint.diff; `ceilHalf` has no patch yet (API decision);
-    `conjSimpler` needs no action (the mirrored path calls the regenerated `Dashu.Gen.is_simpler_than`). -/
-def activeQuirks : Quirks := { Quirks.code with zeroEndpoint := false }  -- 5fc5674 applied
+    `ceilHalf` has no patch yet (API decision).  (The former switches `conjSimpler` and
+    `zeroEndpoint` were deleted in round 5: /repo has 766946e and 5fc5674.) -/
+def activeQuirks : Quirks := Quirks.code
 
 def parseMode : String → Option RMode
   | "Zero" => some .zero | "Away" => some .away | "Up" => some .up | "Down" => some .down
@@ -458,24 +458,33 @@ def dispatch18 : Dispatch := fun _W op args =>
       pure (if decide (Reduced r) && back && brute then ok (showQ r) else mismatch (ok (showQ r)) "c18-spec")
     | .ok none => pure (mismatch (ok "fuel") "model-fuel-exhausted")
     | .error k => pure (mismatch (panic k.name) "c18-unexpected-panic")
-  | "s.fromfloat", [m, b, "inf", _, _] | "s.fromfloat", [m, b, "-inf", _, _] => do
-    -- an infinite FBig is not a rational number: `None`
-    let _ ← parseMode m; let b ← parseDecNat b
-    if b < 2 then none else pure (ok "none")
-  | "s.fromfloat", [m, b, sg, e, pr] => do
+  | "s.fromfloat", [m, b, sg, e, pr] | "s2.fromfloat", [m, b, sg, e, pr] => do
     let mode ← parseMode m
-    let b ← parseDecNat b; let sg ← parseInt sg; let e ← parseDec e; let pr ← parseDecNat pr
+    let b ← parseDecNat b
+    -- lexical forms `inf` / `-inf`: the `Repr` of FBig::INFINITY / NEG_INFINITY is (0, ±1)
+    let (sg, e) ← (if sg == "inf" then some ((0 : Int), (1 : Int)) else if sg == "-inf" then some (0, -1)
+      else do let sg ← parseInt sg; let e ← parseDec e
+              -- the harness builds the float by `Repr::new`, which normalises (0, e) to zero (0, 0)
+              pure (sg, if sg = 0 then 0 else e))
+    let pr ← parseDecNat pr
     if b < 2 then none
     let genSimpler : Q → Q → Bool := fun x y =>
       Dashu.Gen.is_simpler_than (x.num, (x.den : Int)) (y.num, (y.den : Int))
-    let run (k : Quirks) := simplestFromFBig k simplerSpec genSimpler mode b sg e pr
-    let showR : Except PanicKind (Option Q) → String
-      | .ok (some r) => ok (showQ r)
+    -- required behaviour: the documented order; the code: the regenerated `is_simpler_than`
+    let run (k : Quirks) (code : Bool) :=
+      rbigSimplestFromFloat k (if code then genSimpler else simplerSpec) mode b sg e pr
+    let showR : Except PanicKind (Option (Option Q)) → String
+      | .ok (some (some r)) => ok (showQ r)
+      | .ok (some none) => ok "none"
       | .ok none => "bad"
       | .error k => panic k.name
-    match run Quirks.none with
+    match run Quirks.none false with
     | .ok none => none
-    | .ok (some r) =>
+    | .ok (some none) =>
+      -- `None` exactly for an infinite float (theorem simplest_from_fbig_none_iff_infinite)
+      pure (if sg = 0 ∧ e ≠ 0 ∧ showR (run activeQuirks true) = ok "none" then ok "none"
+            else mismatch (ok "none") "c18-spec")
+    | .ok (some (some r)) =>
       let f : Rat := (scaleQ sg b e).val
       let back := if sg = 0 then r == Q.zero else if pr = 0 then r.val == f else roundFBig mode b pr r.val == f
       -- nothing of smaller denominator rounds to f (small denominators only)
@@ -489,25 +498,22 @@ def dispatch18 : Dispatch := fun _W op args =>
         else true
       let req := ok (showQ r)
       if !(decide (Reduced r) && back && brute) then pure (mismatch req "c18-spec") else
-      -- what the code at the pinned commit computes, and which deviations are responsible
-      let code := showR (run activeQuirks)
+      -- what the code in /repo computes, and which deviations are responsible
+      let code := showR (run activeQuirks true)
       if code = req then pure req
       else
         -- deviations that are necessary for the code's result: switching one off changes it
         let one (k : Quirks) (name : String) : List String :=
-          if showR (run k) ≠ code then [name] else []
+          if showR (run k true) ≠ code then [name] else []
         let why :=
-          one { activeQuirks with conjSimpler := false } "is_simpler_than-conjunction" ++
           one { activeQuirks with uniformUlp := false } "full-ulp-below-power-of-base" ++
           one { activeQuirks with ceilHalf := false } "ceil-half-ulp-odd-base" ++
           one { activeQuirks with oddIncl := false } "halfeven-inclusion-parity" ++
-          one { activeQuirks with panicUnlimited := false } "ulp-of-unlimited-precision" ++
-          one { activeQuirks with zeroEndpoint := false } "simplest_in-zero-endpoint"
+          one { activeQuirks with panicUnlimited := false } "ulp-of-unlimited-precision"
         -- if no single deviation is necessary, those that alone suffice to leave the required result
         let suff (k : Quirks) (name : String) : List String :=
-          if showR (run k) ≠ req then [name] else []
+          if showR (run k true) ≠ req then [name] else []
         let anyOf :=
-          suff { Quirks.none with conjSimpler := true } "is_simpler_than-conjunction" ++
           suff { Quirks.none with uniformUlp := true } "full-ulp-below-power-of-base" ++
           suff { Quirks.none with ceilHalf := true } "ceil-half-ulp-odd-base" ++
           suff { Quirks.none with oddIncl := true } "halfeven-inclusion-parity" ++
